@@ -13,14 +13,15 @@ RULE = ("find_shortest_path(s, e) judged against BFS on an adjacency-set model: 
         "every grid with <= 12 lattice edges (1x1..1x7, 2x2, 2x3, 3x2, 2x4, 4x2, 3x3) x every ordered cell pair; (2) random trees, "
         "cyclic, percolation and A*-hostile shapes on larger square/oblong grids with sampled pairs (arguments as tuples, lists, int64/int32/int8 arrays, "
         "tuples of numpy scalars), incl. grids of 13..30 (thorough 40) cells a side and long thin grids (more than 127 / 255 cells); "
-        "(3) SolvedMaze.from_targeted_lattice_maze; (4) the ambient solver monitor on internal calls (generate_random_path). "
+        "corridors/ladders with a side of 129..300 cells; mazes exactly as the generators return them (generation metadata attached; percolation, "
+        "constrained dfs) with every ordered pair; (3) SolvedMaze.from_targeted_lattice_maze; (4) the ambient solver monitor on internal calls (generate_random_path). "
         "non-trivial & distinct = distinct (connection structure, s, e) with s != e on a structure with >= 1 edge")
 ASSUMPTIONS = ["mazes obey the boundary rule (no connection leaves the grid)", "start/end inside the grid"]
 EXHAUSTIVE = {"quick": False, "thorough": False}
 NSHARDS = {"quick": 16, "thorough": 16}
 THRESHOLDS = {
     "quick": {"repotests:ambient:solver:return": 50, "c02:unreachable-raised": 1000, "c02:multi-route-pairs": 1000, "c02:adv-mazes": 100, "c02:self-query": 100,
-              "c02:exh-structures": 6541, "c02:from-targeted": 50, "ambient:solver:return": 20, "c02:array-args": 100, "c02:large-mazes": 60,
+              "c02:exh-structures": 6541, "c02:from-targeted": 50, "ambient:solver:return": 20, "c02:array-args": 100, "c02:large-mazes": 60, "c02:side>127": 6, "c02:generator-made-mazes": 50, "c02:generator-made-disconnected": 15,
               "hits:find_shortest_path": 1000},
 }
 THRESHOLDS["thorough"] = {**THRESHOLDS["quick"], "c02:exh-structures-13-17-edges": 2 * 8192 + 2 * 131072}
@@ -190,6 +191,75 @@ def run(ctx):
             _solve(ctx, maze, g, s, e, dict(kind="large", family=fam, shape=(R, C), cl=cl, s=s, e=e, j=j), cache, as_array=(t % 6))
             if s != e:
                 ctx.nontrivial("large", cl, s, e)
+    # ---- (2c) grids with a side longer than 127 / 255 cells (corridors, ladders): coordinates beyond the int8 / uint8 range ----
+    thin = [(1, 150), (140, 1), (3, 135), (2, 260), (130, 2), (200, 1), (1, 300), (4, 129)]
+    for j, (R, C) in enumerate(thin if not ctx.quick else thin[:6]):
+        if not ctx.mine(j):
+            continue
+        rng = ctx.sub_rng("thin", j)
+        fam = ["full", "tree", "cyc3", "perc8"][j % 4] if min(R, C) > 1 else ["full", "perc8"][j % 2]
+        fam, cl = ref.random_structure(R, C, rng, fam)
+        if min(R, C) == 1 and fam == "perc8":
+            cl = ref.full_cl(R, C)
+            gap = (0, 0, int(rng.integers(C // 2, C - 1))) if R == 1 else (0, int(rng.integers(R // 2, R - 1)), 0)
+            cl[(1, gap[1], gap[2]) if R == 1 else gap] = False  # one gap: two components
+        g = Graph(cl)
+        maze = lib.lattice(cl)
+        cells = ref.all_cells(R, C)
+        cache = {}
+        ctx.tally("c02:side>127")
+        pairs = [(cells[0], cells[-1]), (cells[-1], cells[0]), (cells[-1], cells[-1]), (cells[len(cells) // 2], cells[-1])]
+        pairs += [(cells[int(a)], cells[int(b)]) for a, b in rng.integers(0, len(cells), size=(8, 2))]
+        for t, (s, e) in enumerate(pairs):
+            _solve(ctx, maze, g, s, e, dict(kind="thin", family=fam, shape=(R, C), s=s, e=e, j=j), cache, as_array=(0, 1, 5, 3, 4)[t % 5])  # (no int8 form: the coordinates do not fit)
+            if s != e:
+                ctx.nontrivial("thin", R, C, cl, s, e)
+        # and through the second observation point
+        from maze_dataset.maze.lattice_maze import SolvedMaze
+
+        s, e = cells[0], cells[-1]
+        case = dict(kind="thin-from_targeted", shape=(R, C), s=s, e=e)
+        try:
+            res, exc = SolvedMaze.from_targeted_lattice_maze(lib.targeted(cl, s, e)).solution, None
+        except Exception as ex:  # noqa: BLE001
+            res, exc = None, ex
+        ctx.ev(); ctx.tally("c02:from-targeted")
+        oracles.check_c02(ctx, g, s, e, res, exc, case, dist_cache=cache)
+    # ---- (2d) mazes as the generators hand them out (with generation metadata attached): every ordered pair ------------------
+    from maze_dataset.generation.generators import GENERATORS_MAP
+
+    gspecs = [("gen_percolation", dict(p=0.35)), ("gen_percolation", dict(p=0.55)), ("gen_dfs_percolation", dict(p=0.2)),
+              ("gen_dfs", dict(accessible_cells=5)), ("gen_dfs", dict(max_tree_depth=3)), ("gen_dfs", dict(accessible_cells=0.4, do_forks=False)),
+              ("gen_prim", dict(accessible_cells=7)), ("gen_wilson", {}), ("gen_dfs", {}), ("gen_percolation", dict(p=0.0))]
+    n_gen = 60 if ctx.quick else 600
+    for j in range(n_gen):
+        if not ctx.mine(j):
+            continue
+        rng = ctx.sub_rng("genmeta", j)
+        gen, kw = gspecs[j % len(gspecs)]
+        R = int(rng.integers(2, 6)); C = R if j % 3 else int(rng.integers(2, 6))
+        import random
+        random.seed(ctx.case_seed("g", j)); np.random.seed(ctx.case_seed("g", j) % (2**32))
+        try:
+            gm = GENERATORS_MAP[gen](np.array([R, C]), **kw)
+        except Exception:  # noqa: BLE001  (generator behaviour is C01's business)
+            ctx.tally("c02:generator-failed(not judged)")
+            continue
+        cl = np.array(gm.connection_list, dtype=bool)
+        g = Graph(cl)
+        if not g.boundary_ok():
+            continue
+        cells = ref.all_cells(R, C)
+        cache = {}
+        ctx.tally("c02:generator-made-mazes")
+        if g.n_components() > 1:
+            ctx.tally("c02:generator-made-disconnected")
+        for s in cells:
+            for e in cells:
+                _solve(ctx, gm, g, s, e, dict(kind="generator-made", gen=gen, kwargs=kw, shape=(R, C), cl=cl, s=s, e=e,
+                                              meta_keys=sorted((gm.generation_meta or {}).keys())), cache)
+                if s != e:
+                    ctx.nontrivial("genmeta", cl, s, e)
     # ---- multi-route accounting on the exhaustive part (cheap sample) ------
     rng = ctx.sub_rng("multi")
     for _ in range(150):
